@@ -105,6 +105,8 @@ type trieNode struct {
 	word []int
 	in   [][]float64 // per input field
 	run  *IndRun
+	// first healthy child seen (siblings differ only in the last input position and must agree on everything earlier)
+	firstChild *trieNode
 }
 
 // walkTrie visits every word over {0..k-1} of length 0..n depth-first; visit gets
@@ -292,6 +294,22 @@ func indTrieUnit(c *core.Ctx, e *cat.Ind, cfg []float64, prop string) {
 		case "C04":
 			if parent == nil || !parent.run.Healthy() {
 				return
+			}
+			// siblings differ only at the last input position: everything that refers to earlier positions must agree,
+			// also when the run on the prefix itself emitted nothing for it
+			if parent.firstChild == nil {
+				parent.firstChild = nd
+			} else {
+				sib := parent.firstChild
+				for j := range r.Outs {
+					lim := nlen - 1 - w // outputs that refer to positions < nlen-1
+					for i2 := 0; i2 < lim && i2 < len(r.Outs[j]) && i2 < len(sib.run.Outs[j]); i2++ {
+						if !bitsEq(sib.run.Outs[j][i2], r.Outs[j][i2]) {
+							c.Fail("", fmt.Sprintf("%s: output %d value %d (input position %d) is %.12g on %s but %.12g on %s, which differ only at position %d (look-ahead)", label, j, i2, i2+w, sib.run.Outs[j][i2], fmtCols(sib.in), r.Outs[j][i2], fmtCols(nd.in), nlen-1), mk())
+							return
+						}
+					}
+				}
 			}
 			for j := range r.Outs {
 				po := parent.run.Outs[j]
